@@ -3,7 +3,7 @@ open Drv
 (*#include zconv*)
 let zi s = z_of_int (int_of_string s)
 let iz = int_of_z
-(* index "a:b" (planar: r:c, rotated planar: x:y); lists separated by ';' *)
+(* index "a:b" (planar, colour: r:c, rotated planar: x:y); lists separated by ';' ("-" = empty) *)
 let idx_of_string s = match String.split_on_char ':' s with [r; c] -> (zi r, zi c) | _ -> failwith "badidx"
 let coset_of_string = function "I" -> CI | "X" -> CX | "Y" -> CY | "Z" -> CZ | _ -> failwith "badcoset"
 let dispatch = function
@@ -22,6 +22,16 @@ let dispatch = function
       string_of_bits (rc_to_bsf (rotplanar_sample_recovery_ord (zi rows) (zi cols) (List.map idx_of_string (split ';' l))))
   | ["rdecode"; rows; cols; c; syn] ->
       string_of_bits (rotplanar_mps_recovery (zi rows) (zi cols) (coset_of_string c) (bits_of_string syn))
+  | ["csample"; size; syn] ->
+      (match color_sample_recovery (zi size) (bits_of_string syn) with
+       | Some p -> string_of_bits (rc_to_bsf p) | None -> "ERR IndexError")
+  | ["csampleord"; size; lx; lz] ->
+      (match color_sample_recovery_ord (zi size) (List.map idx_of_string (split ';' lx)) (List.map idx_of_string (split ';' lz)) with
+       | Some p -> string_of_bits (rc_to_bsf p) | None -> "ERR IndexError")
+  | ["cdecode"; size; c; syn] ->
+      (match color_mps_recovery (zi size) (coset_of_string c) (bits_of_string syn) with
+       | Some r -> string_of_bits r | None -> "ERR IndexError")
+  | ["cstabs"; size] -> string_of_rows (color_code (zi size)).stabs
   | ["pstabs"; rows; cols] -> string_of_rows (planar_code (zi rows) (zi cols)).stabs
   | ["rstabs"; rows; cols] -> string_of_rows (rotplanar_code (zi rows) (zi cols)).stabs
   | ["psyn"; rows; cols; e] -> string_of_bits (syndrome_of (planar_code (zi rows) (zi cols)).stabs (bits_of_string e))
